@@ -2038,8 +2038,11 @@ def c01_checks(repo: Repo, tier: str, res: CheckResult, seed: int) -> None:
     to; a list node of the dumper is a list node of the loader. No oracle: the two emitted programs are compared."""
     from .genaudit import audit_dumper, audit_loader
     recs = [r for r in run_child(repo, tier, seed, "layoutpipe") if r.get("kind") == "layoutpipe"]
+    # models whose input and output shapes differ (init=False fields): same comparison
+    recs += [r for r in run_child(repo, tier, seed, "outonly") if r.get("kind") == "layoutpipe_outonly"]
     NL = "adaptix/_internal/morphing/name_layout/component.py"
     n = n_fields = 0
+    shifted: List[str] = []
     for r in recs:
         if r.get("harness_error"):
             raise AnalysisError(f"layoutpipe harness failed on configuration {r['idx']}: {r['harness_error']}")
@@ -2065,6 +2068,10 @@ def c01_checks(repo: Repo, tier: str, res: CheckResult, seed: int) -> None:
         cdesc = json.dumps({k: v for k, v in r["cfg"].items() if k != "with_rest"}, sort_keys=True)[:400]
         for f in sorted(set(reads) & set(written)):
             n_fields += 1
+            if reads[f] != written[f] and r["kind"] == "layoutpipe_outonly" and "as_list" in cdesc and "map" not in cdesc:
+                # positions computed from each shape's own field list: one defect, reported once for all models of the family
+                shifted.append(f"{r['cfg']['model']}.{f}:{sorted(map(list, written[f]))}/{sorted(map(list, reads[f]))}")
+                continue
             if reads[f] != written[f]:
                 res.add(Finding("C01", "ROUNDTRIP.path-asymmetry", NL, "BuiltinStructureMaker",
                                 f"field {f}: dumped to {sorted(map(list, written[f]))}, loaded from {sorted(map(list, reads[f]))}"[:160],
@@ -2092,6 +2099,12 @@ def c01_checks(repo: Repo, tier: str, res: CheckResult, seed: int) -> None:
                             f"expects the other kind ({bad})", 0, extra={"cfg": r["cfg"]}))
         if len(res.samples) < 12 and n % 31 == 1:
             res.sample({"configuration": r["cfg"], "fields compared": sorted(set(reads) & set(written)), "verdict": "same paths"})
+    if shifted:
+        res.add(Finding("C01", "ROUNDTRIP.as-list-position-per-shape", NL, "BuiltinStructureMaker._generate_key", " ".join(sorted(set(shifted))),
+                        "name_mapping(as_list=True) on a model with an output-only field (dataclass field(init=False)) before a loaded one: "
+                        "the list position of a field is its index in the field list of the shape at hand, and the output shape has one "
+                        f"field more than the input shape -- dumped/loaded positions {sorted(set(shifted))}: load(dump(x)) reads "
+                        "every later field from its neighbour's slot", 0))
     res.count("ROUNDTRIP.configurations", n, 25)
     res.count("ROUNDTRIP.fields-compared", n_fields, 80)
     # the model-kind family: all-required models exist there, so list layouts (as_list) have a loader too
